@@ -132,7 +132,8 @@ def _lingua_obs(raw, via):
         cfg["encoding"] = raw["enc"]
     plugin = LinguaMakoExtractor(cfg)
     if via == "path":
-        if _state["dir"] is None or _state.get("pid") != os.getpid():
+        if _state["dir"] is None or _state.get("pid") != os.getpid() or not os.path.isdir(_state["dir"]):
+            # (a pool worker runs several shards one after the other; the temp roots of a shard are removed when it ends)
             _state["dir"] = core.tmp_root()
             _state["pid"] = os.getpid()
         _state["n"] += 1
